@@ -16,6 +16,11 @@ and the identities of the property are evaluated with dense numpy:
     equal the polygon area / centroid computed from the node coordinates by a fan
     triangulation.
 
+Scale axis: every letter (and every single-node perturbation) is also run with all node
+coordinates multiplied by s in {1e-4, 1e-2, 1e3}, and three tensor letters are strongly
+graded (one cell 10^3..10^4 times smaller than its neighbour): absolute constants hidden
+in the geometry code show up there.  All tolerances are relative to the grid size.
+
 Node-perturbed hexahedra have non-planar faces: only the identities that do not
 presuppose planarity are demanded there.
 """
@@ -47,12 +52,15 @@ ASSUMPTIONS = [
     "polytopal letters skip it)",
     "perturbed hexahedra (non-planar faces): only volumes>0, sum of volumes, sum s n = 0 "
     "and outward orientation are demanded; offsets of 1/4 spacing keep them valid",
-    "tolerance 1e-12 relative to L^k (L = extent of the grid measured from the origin "
-    "node); measured floor 2e-15",
+    "tolerance 1e-12 relative to L^k, L = max(extent of the grid from the origin node, "
+    "largest absolute coordinate), no absolute floor, so every physical scale is judged "
+    "alike; measured floor 2e-15; sign conditions (volume > 0, outward) are strict",
+    "compute_geometry may only write the five geometry fields: nodes, both incidence "
+    "matrices and all tags must be bitwise unchanged",
 ]
 BOUNDS = {
-    "quick": "32 grid letters (<=72 cells); offsets {0,+-1/4}^dim on <=2 interior nodes (and on <=2 interior node columns of 3-d Cartesian/tensor letters); 3 embeddings (1-d/2-d) / 3 affine maps (3-d)",
-    "thorough": "36 grid letters (<=72 cells); offsets on <=3 interior nodes in 1-d/2-d, <=2 in 3-d (and <=2 node columns); 5 embeddings / 3 affine maps",
+    "quick": "35 grid letters (<=72 cells); offsets {0,+-1/4}^dim on <=2 interior nodes (and on <=2 interior node columns of 3-d Cartesian/tensor letters); 3 embeddings (1-d/2-d) / 3 affine maps (3-d); scale axis s in {1e-4,1e-2,1,1e3} on every unperturbed and singly perturbed grid; 3 graded tensor grids with cell-size ratios 1e3..1e4",
+    "thorough": "39 grid letters (<=72 cells); offsets on <=3 interior nodes in 1-d/2-d, <=2 in 3-d (and <=2 node columns); 5 embeddings / 3 affine maps; same scale axis",
 }
 MIN_CLASSES = 6
 CHUNK = 16
@@ -86,7 +94,14 @@ def cases(tier):
             for i in inner:
                 for off in G.lattice_offsets(d):
                     out.append({"name": name, "spec": v, "first": [i, off], "later": [j for j in inner if j > i], "kmax": kmax})
-            if d == 3 and spec["kind"] in ("cart", "tensor"):
+            # scale axis: the same grid (and every single-node perturbation of it) with
+            # all node coordinates multiplied by s
+            for sc in G.SCALES:
+                vs = dict(v, scale=sc)
+                out.append({"name": name, "spec": vs, "first": None, "kmax": 1})
+                if inner:
+                    out.append({"name": name, "spec": vs, "first": None, "kmax": 1, "singles": inner})
+            if d == 3 and spec["kind"] in ("cart", "tensor") and G.perturbable(spec):
                 cols = G.interior_columns(spec)
                 for i in cols:
                     for off in G.lattice_offsets(2):
@@ -103,6 +118,11 @@ def _perts(case):
         for j in case["later"]:
             for o in offs2:
                 yield ("colpert", [case["firstcol"], [j, o]])
+        return
+    if case.get("singles"):
+        for i in case["singles"]:
+            for off in G.lattice_offsets(G.spec_dim(case["spec"])):
+                yield [[i, off]]
         return
     if case["first"] is None:
         yield []
@@ -130,14 +150,15 @@ def evaluate(spec, out: Outcome, name=""):
         g = G.build(spec)
         with warnings.catch_warnings(record=True) as w:
             warnings.simplefilter("always")
-            g.compute_geometry()
+            with G.Pure(out, "compute_geometry", [g], allow=G.GEOM_FIELDS, spec=spec) as pure:
+                g.compute_geometry()
         fallback = any("Orientations are inconsistent" in str(x.message) for x in w)
     except Exception as e:
         out.violate("compute_geometry raised on a valid grid", spec=spec, error=repr(e))
         out.ev("VIOLATION")
         return
     res, signs = G.divergence_defects(g, g.nodes[:, 0].copy(), G.domain_measure(spec), planar=planar, convex=convex)
-    bad = False
+    bad = bool(pure.changed)
     for key, lst in signs.items():
         if lst:
             out.violate(f"{key}", spec=spec, where=lst[:5], volumes=g.cell_volumes)
@@ -151,6 +172,7 @@ def evaluate(spec, out: Outcome, name=""):
         f"{d}d/{spec['kind']}/{'col' if spec.get('colpert') else 'pert'}{len(spec.get('pert', []) or spec.get('colpert', []))}/"
         f"{'ref' if not (spec.get('motion') or spec.get('affine')) else ('emb' if spec.get('motion') else 'affine')}/"
         f"{'fallback' if fallback else 'oriented'}/{'planar' if planar else 'nonplanar'}"
+        f"{'' if spec.get('scale') is None else '/scale%g' % spec['scale']}"
         f"{'' if convex else '/nonconvex'}"
     )
     out.ev("VIOLATION" if bad else cls, None if trivial else repr(sorted(spec.items(), key=str)))
